@@ -5,7 +5,7 @@ import NucleoVerif.Props.C07_UpdateSound
 
 `Gen/Parse.lean` is regenerated on every run from `matcher/src/pattern.rs`: the three matches on `atom.as_bytes()` of
 `Atom::parse` (slice patterns become list patterns; `[.., x, y]` is read from the end), the kind of a negated fuzzy atom, and
-the arguments of the `new_inner` call.  The theorems of C07 (`C07_update_narrows_ascii`) and C14 are about `stripNeg`,
+the arguments of the `new_inner` call; and the stateful closure `pattern_atoms` hands to `str::split` (`split_step`).  The theorems of C07 (`C07_update_narrows_ascii`) and C14 are about `stripNeg`,
 `stripKind`, `stripDollar` and `parseAtom`: they are the same functions. -/
 namespace NucleoVerif
 
@@ -79,5 +79,22 @@ theorem C07_translated_parse (seg : Seg) (raw : List Nat) (case : CaseMatching) 
   simp only
   rw [C07_translated_invert]
   exact ⟨C07_translated_kind _, C07_translated_dollar _ _, rfl, C07_translated_final_kind _ _⟩
+
+/-- **the closure of `pattern_atoms`, translated from the source, is the step of the model's splitter** -/
+theorem C07_translated_split (c : Nat) (cs : List Nat) (saw : Bool) (cur : List Nat) :
+    patternAtomsGo (c :: cs) saw cur =
+      if (Gen.Parse.split_step saw (isWs c) c).1 then cur.reverse :: patternAtomsGo cs (Gen.Parse.split_step saw (isWs c) c).2 []
+      else patternAtomsGo cs (Gen.Parse.split_step saw (isWs c) c).2 (c :: cur) := by
+  unfold Gen.Parse.split_step
+  rw [patternAtomsGo]
+  by_cases h : isWs c = true ∧ (!saw) = true
+  · have h' : (isWs c && !saw) = true := by simpa using h
+    simp [h]
+  · have h' : (isWs c && !saw) = false := by
+      cases hw : isWs c <;> cases hs : saw <;> simp_all
+    simp only [h, if_false, h', Bool.false_eq_true]
+    by_cases hc : c = 92
+    · simp [hc]
+    · simp [hc]
 
 end NucleoVerif
